@@ -245,16 +245,45 @@ def corruptions(rng, data, keys, n):
 
 # ------------------------------------------------------------------ running the real programs
 
+def is_sanitizer(err):
+    """an actual report (not the allocator's 'failed to allocate' warning under allocator_may_return_null)"""
+    return b"ERROR: AddressSanitizer" in err or b"runtime error:" in err or b"SUMMARY: " in err
+
+
+def snapshot_tools(names=("nqshim.so", "ql-rec")):
+    """private copies of the shared stand-ins (bin/ may be rebuilt by somebody else while a check
+    runs; a half-written nqshim.so would silently not be preloaded)"""
+    d = build.mktemp("nqv-tools-")
+    os.chmod(d, 0o755)
+    for attempt in range(20):
+        ok = True
+        for n in names:
+            shutil.copy(os.path.join(core.VERIF, "bin", n), os.path.join(d, n))
+            os.chmod(os.path.join(d, n), 0o755)
+        rc, out, err = core.run_with_watchdog(["/bin/true"], 20, env={"LD_PRELOAD": os.path.join(d, "nqshim.so")})
+        if rc != 0 or err:
+            ok = False
+        for n in names:
+            with open(os.path.join(d, n), "rb") as f:
+                if f.read(4) != b"\x7fELF":
+                    ok = False
+        if ok:
+            return d
+        time.sleep(0.5)
+    raise core.Inconclusive("bin/nqshim.so or a stand-in is not loadable")
+
+
 class Box:
     """one worker's sandbox: a qmail home with the real programs, a record dir, a shim log"""
 
-    def __init__(self, b):
+    def __init__(self, b, tools):
         self.b = b
+        self.tools = tools
         self.base = build.mktemp("nqv-c11-")
         os.chmod(self.base, 0o755)
         self.home = self.base + "/q"
         sandbox.make_home(b, self.home, bins=("qmail-lspawn", "qmail-getpw", "qmail-newu"), queue=False)
-        shutil.copy(os.path.join(core.VERIF, "bin/ql-rec"), self.home + "/bin/qmail-local")
+        shutil.copy(os.path.join(tools, "ql-rec"), self.home + "/bin/qmail-local")
         os.chmod(self.home + "/bin/qmail-local", 0o755)
         d = "%s/queue/mess/%d" % (self.home, MESSNUM % 23)
         os.makedirs(d)
@@ -279,7 +308,7 @@ class Box:
         e = self.b.env(self.home)
         # (ASan's log_path cannot be combined with the shim; sanitizer reports are taken from stderr: a
         # delivery child still has qmail-lspawn's stderr while it reads users/cdb)
-        e.update({"LD_PRELOAD": os.path.join(core.VERIF, "bin/nqshim.so"), "NQV_PASSWD": self.passwd,
+        e.update({"LD_PRELOAD": os.path.join(self.tools, "nqshim.so"), "NQV_PASSWD": self.passwd,
                   "NQV_REC": self.rec, "NQV_TRACE": "i", "NQV_LOG": self.log, "NQV_CLOCK": self.clock,
                   "NQV_QL_OUT": QL_OUT.decode()})
         return e
@@ -288,7 +317,7 @@ class Box:
         rc, out, err = core.run_with_watchdog([self.home + "/bin/qmail-newu"], 60, env=self.env())
         if rc is None:
             rc, out, err = core.run_with_watchdog([self.home + "/bin/qmail-newu"], 60, env=self.env())
-        self.stderr = [err.decode("latin1")] if (b"Sanitizer" in err or b"runtime error" in err) else []
+        self.stderr = [err.decode("latin1")] if is_sanitizer(err) else []
         return rc, err
 
     def set_getpw(self, kind):
@@ -328,7 +357,7 @@ class Box:
                 break
         if rc is None:
             return None, None, None, "qmail-lspawn watchdog"
-        self.stderr = [err.decode("latin1")] if (b"Sanitizer" in err or b"runtime error" in err) else []
+        self.stderr = [err.decode("latin1")] if is_sanitizer(err) else []
         if self.stderr and rc != 0:
             return {}, {}, {}, None
         if rc != 0 or len(out) < 1:
@@ -381,7 +410,7 @@ def want_tuple(t, local, domain, idx):
     return [b"bin/qmail-local", b"--", t.user, t.home, local, t.dash, t.ext, domain, b"s%d@sender.test" % idx, DEFAULT]
 
 
-def judge(res, box, ctx, locals_, expect, reports, records, ev, domain, tag, chosen=None):
+def judge(res, box, ctx, locals_, expect, reports, records, ev, domain, tag, chosen=None, sanitizer_seen=False):
     """expect: idx -> ('deliver',Target,uid,gid) | ('defer',why) | ('undefined',Target|None) | ('trash',)
     tag: key infix ('table', 'corrupt', fault name)"""
     chosen = chosen or {}
@@ -404,6 +433,12 @@ def judge(res, box, ctx, locals_, expect, reports, records, ev, domain, tag, cho
             zt = res.counters.setdefault("z_texts", {})
             t = rep[1:60].decode("latin1").strip()
             zt[t] = zt.get(t, 0) + 1
+        if b"ld.so" in rep and b"LD_PRELOAD" in rep:
+            res.inconclusive.append("the shim was not loadable in a delivery child")
+            continue
+        if b"crashed" in rep and sanitizer_seen:
+            res.counters.inc("children_aborted_by_sanitizer")      # already reported under its own key
+            continue
         if b"crashed" in rep:
             res.violate("C20/sanitizer/qmail-lspawn/child-crashed/" + tag, "a delivery child died by signal", wit)
             continue
@@ -429,7 +464,10 @@ def judge(res, box, ctx, locals_, expect, reports, records, ev, domain, tag, cho
         if exp[0] == "defer":
             if recs:
                 cls = "uid0-entry-delivered" if exp[1] == "uid0" else "delivery-despite-lookup-error"
-                res.violate("C11/%s/%s" % (tag, cls), "expected a deferral (%s) but qmail-local ran" % exp[1], wit)
+                key = "C11/%s/%s" % (tag, cls)
+                if chosen.get("entries") is not None and upper_wild_defect(chosen["entries"], chosen.get("fallback"), local, rep, recs):
+                    key = "C11/assign/wildcard-uppercase-last-char-ignored"
+                res.violate(key, "expected a deferral (%s) but qmail-local ran" % exp[1], wit)
             elif kind != b"Z":
                 res.violate("C11/%s/not-deferred" % tag, "expected a Z report (%s)" % exp[1], wit)
             else:
@@ -446,7 +484,7 @@ def judge(res, box, ctx, locals_, expect, reports, records, ev, domain, tag, cho
         _, t, uid, gid = exp
         if not recs:
             key = "C11/%s/expected-delivery-deferred" % tag
-            if chosen.get("entries") is not None and upper_wild_defect(chosen["entries"], local, rep, recs):
+            if chosen.get("entries") is not None and upper_wild_defect(chosen["entries"], chosen.get("fallback"), local, rep, recs):
                 key = "C11/assign/wildcard-uppercase-last-char-ignored"
             res.violate(key, "model: deliver as %s (%s) but report is %r" % (core.hx(t.user), t.via, rep[:60]), wit)
             continue
@@ -456,7 +494,7 @@ def judge(res, box, ctx, locals_, expect, reports, records, ev, domain, tag, cho
             diff = [n for n, (a, w) in enumerate(zip(r["args"] + [None] * 10, want)) if a != w]
             names = ["argv0", "dashdash", "user", "homedir", "local", "dash", "ext", "domain", "sender", "defaultdelivery"]
             key = "C11/%s/wrong-%s/%s" % (tag, names[diff[0]] if diff else "argc", t.via)
-            if chosen.get("entries") is not None and upper_wild_defect(chosen["entries"], local, rep, recs):
+            if chosen.get("entries") is not None and upper_wild_defect(chosen["entries"], chosen.get("fallback"), local, rep, recs):
                 key = "C11/assign/wildcard-uppercase-last-char-ignored"
             wit["want_args"] = [core.hx(a) for a in want]
             res.violate(key, "argv differs from the model (%s)" % t.via, wit)
@@ -508,20 +546,22 @@ def judge(res, box, ctx, locals_, expect, reports, records, ev, domain, tag, cho
             res.violate("C11/%s/unexpected-delivery" % tag, "a qmail-local run that matches no command", dict(ctx))
 
 
-def upper_wild_defect(entries, local, rep, recs):
-    """True iff the observed outcome is exactly what the (repaired) defect 0f89315 produced: a
-    wildcard whose loc ends in an upper-case letter is unreachable unless some wildcard ends in the
-    lower-case letter as written.  Used only to give that known class its stable key."""
+def upper_wild_defect(entries, fallback, local, rep, recs):
+    """True iff the observed outcome is exactly what the (repaired) defect 0f89315 produced and
+    differs from the documented one: a wildcard whose loc ends in an upper-case letter was
+    unreachable unless some wildcard ends in the lower-case letter as written.  Only used to give
+    that known class its stable key."""
     written = {e.loc[-1:] for e in entries if e.kind == b"+" and e.loc}
     reach = [e for e in entries if not (e.kind == b"+" and e.loc and um.lower(e.loc)[-1:] not in written)]
     d, m = um.assign_lookup(reach, local), um.assign_lookup(entries, local)
     if d == m:
         return False
     if d is None:
-        return True           # falls through to the passwd rules instead of the table entry
+        d = fallback(local) if fallback else None
+    e = um.expectation(d)
     if recs:
-        return recs[0]["args"][2:7] == [d.user, d.home, local, d.dash, d.ext]
-    return um.expectation(d)[0] != "deliver" and rep[:1] == b"Z"
+        return e[0] != "defer" and recs[0]["args"][2:7] == [d.user, d.home, local, d.dash, d.ext]
+    return e[0] != "deliver" and rep[:1] == b"Z"
 
 
 def expect_of(t, why_none="lookup"):
@@ -663,12 +703,17 @@ def run_case(res, box, i, tier):
             if (ct is None) != (st is None) or (ct is not None and st is not None and
                                                  (isinstance(ct, Exception) or ct[:6] != st[:6])):
                 key = "C11/newu/compiled-differs-from-source"
-                if upper_wild_defect(entries, l, b"", []) and ct is None:
+                written = {e.loc[-1:] for e in entries if e.kind == b"+" and e.loc}
+                dt = um.assign_lookup([e for e in entries if not (e.kind == b"+" and e.loc and
+                                                                  um.lower(e.loc)[-1:] not in written)], l)
+                if not isinstance(ct, Exception) and ((ct is None and dt is None) or
+                                                      (ct is not None and dt is not None and ct[:6] == dt[:6])):
                     key = "C11/assign/wildcard-uppercase-last-char-ignored"
                 res.violate(key, "users/cdb (independent reader) says %r, users/assign says %r" % (ct, st),
                             dict(ctx, local=core.hx(l)))
     if mode != "nocdb":
         chosen["entries"] = entries
+        chosen["fallback"] = lambda l: um.getpw_lookup(model_accounts, home_owner, l, ALIAS)
     reports, records, ev, problem = box.lspawn(locals_, domain)
     if problem:
         res.inconclusive.append("case %d: %s" % (i, problem))
@@ -677,7 +722,7 @@ def run_case(res, box, i, tier):
     if reps:
         res.violate("C20/sanitizer/qmail-lspawn/" + hrun.sanitizer_site(reps[0]), "sanitizer report under qmail-lspawn",
                     dict(ctx, stderr=reps[0][-2000:]))
-    judge(res, box, ctx, locals_, expect, reports, records, ev, domain, fault_tag, chosen)
+    judge(res, box, ctx, locals_, expect, reports, records, ev, domain, fault_tag, chosen, bool(reps))
     # (c) damaged users/cdb
     if mode == "table" and compiled is not None and i % 3 == 0:
         hit = [l for idx, l in enumerate(locals_) if idx in chosen]
@@ -720,14 +765,14 @@ def run_case(res, box, i, tier):
                 if reps:
                     res.violate("C20/sanitizer/qmail-lspawn/" + hrun.sanitizer_site(reps[0]),
                                 "sanitizer report under qmail-lspawn reading a damaged users/cdb", dict(cctx, stderr=reps[0][-2000:]))
-                judge(res, box, cctx, probe, cexp, reports, records, ev, domain, "corrupt")
+                judge(res, box, cctx, probe, cexp, reports, records, ev, domain, "corrupt", None, bool(reps))
     shutil.rmtree(hd, ignore_errors=True)
 
 
-def worker(bdir, lo, hi, tier):
+def worker(bdir, tools, lo, hi, tier):
     res = core.Result()
     b = build.Build("asan", bdir)
-    box = Box(b)
+    box = Box(b, tools)
     for i in range(lo, hi):
         try:
             run_case(res, box, i, tier)
@@ -759,7 +804,8 @@ def main(tier):
     jobs = [["rand", max(1, ntab // 32), core.seed() * 100000 + j] for j in range(32)]
     res = hrun.run_many(hc, jobs, b.env(), timeout=1800)
     res.counters["cdb_lookups"] = res.evaluations
-    wres = core.pmap(worker, [(b.dir, lo, hi, tier) for lo, hi in core.chunks(ncase, core.JOBS * 2)], timeout=7200)
+    tools = snapshot_tools()
+    wres = core.pmap(worker, [(b.dir, tools, lo, hi, tier) for lo, hi in core.chunks(ncase, core.JOBS * 2)], timeout=7200)
     res.merge(wres)
     return core.finish(PROP, tier, "exploration", res, RULE % (ntab, ncase, 50 if tier == "quick" else 100), t0, assumptions=[
         "reference model nqv/refmodel/users_model.py written from qmail-users(5), qmail-getpw(8), qmail-lspawn(8), qmail-newu(8)",
@@ -782,7 +828,7 @@ def replay(path):
         return main(w.get("tier", "quick"))
     b = build.vbuild("asan")
     res = core.Result()
-    box = Box(b)
+    box = Box(b, snapshot_tools())
     for i in cases:
         run_case(res, box, i, w.get("tier", "quick"))
     for v in res.violations:
